@@ -38,17 +38,20 @@ template<typename L> struct Counting {
 	void unlock() { t_pool_locks_held--; l.unlock(); }
 };
 
-struct MtPolicy {
+template<bool ALIGNED>
+struct MtPolicyT {
 	static constexpr size_t pagesize = 0x1000, slabsize = 0x4000, sb_size = 0x4000;
 	static constexpr int num_buckets = 6; // 8..256
 	std::mutex reg_mutex; // registry touched only on map/unmap (slab creation, large blocks)
 	std::map<uintptr_t, std::pair<void *, size_t>> maps;
 	std::atomic<uint64_t> n_map{0}, n_unmap{0}, bad_unmap{0};
-	uintptr_t map(size_t len, size_t align) {
+	uintptr_t map(size_t len, size_t align) requires ALIGNED { return do_map(len, align); }
+	uintptr_t map(size_t len) requires (!ALIGNED) { return do_map(len, 0); } // page-aligned only: the pool aligns inside the reservation
+	uintptr_t do_map(size_t len, size_t align) {
 		if(t_pool_locks_held) g_policy_under_lock++;
 		size_t rawlen = len + align + pagesize;
 		void *raw = mmap(nullptr, rawlen, PROT_READ | PROT_WRITE, MAP_PRIVATE | MAP_ANONYMOUS | MAP_NORESERVE, -1, 0);
-		uintptr_t base = ((uintptr_t)raw + align - 1) & ~(uintptr_t)(align - 1);
+		uintptr_t base = align ? (((uintptr_t)raw + align - 1) & ~(uintptr_t)(align - 1)) : (uintptr_t)raw + pagesize;
 		{ std::lock_guard<std::mutex> g(reg_mutex); maps[base] = {raw, rawlen}; }
 		n_map++;
 		return base;
@@ -66,9 +69,10 @@ struct AllocEv { uintptr_t addr; size_t size; uint64_t alloc_ret, free_call; };
 
 static uint8_t pat_byte(uint64_t pat, size_t i) { return (uint8_t)((pat >> ((i % 8) * 8)) + i * 11); }
 
-template<typename M>
+template<typename M, bool ALIGNED = true>
 static void torture(const char *mname, long long idx, int nthreads, unsigned nops) {
-	std::string mode = std::string("tsan:") + mname;
+	using MtPolicy = MtPolicyT<ALIGNED>;
+	std::string mode = std::string("tsan:") + mname + (ALIGNED ? "" : ":unaligned-map");
 	begin_case(mode.c_str(), idx);
 	MtPolicy pol;
 	auto *pool = new frg::slab_pool<MtPolicy, Counting<M>>(pol);
@@ -76,7 +80,7 @@ static void torture(const char *mname, long long idx, int nthreads, unsigned nop
 	struct Slot { std::atomic<void *> p{nullptr}; size_t size = 0; uint64_t pat = 0; uint64_t alloc_ret = 0; };
 	std::vector<Slot> xfer(NSLOTS);       // hand-off slots: release on put, acquire on take
 	std::vector<std::vector<AllocEv>> logs(nthreads);
-	std::atomic<uint64_t> corrupt{0}, nulls{0}, cross{0};
+	std::atomic<uint64_t> corrupt{0}, nulls{0}, cross{0}, reallocs{0};
 	std::vector<std::thread> th;
 	for(int t = 0; t < nthreads; t++) th.emplace_back([&, t] {
 		t_jit = 1000003ull * (t + 1) + idx * 7919;
@@ -101,9 +105,23 @@ static void torture(const char *mname, long long idx, int nthreads, unsigned nop
 				uint64_t pat = r.next();
 				auto *d = (uint8_t *)p; for(size_t k = 0; k < s; k++) d[k] = pat_byte(pat, k); // plain stores
 				mine.push_back({p, s, pat, ar});
-			} else if(z < 75) {
+			} else if(z < 68) {
 				size_t k = r.below(mine.size()); Mine b = mine[k]; mine.erase(mine.begin() + k);
 				release_block(b, r.chance(1, 2));
+			} else if(z < 75) { // realloc (in place or moving); a moved block ends the old allocation's life at the call
+				size_t k = r.below(mine.size()); Mine b = mine[k];
+				{ auto *d = (uint8_t *)b.p; for(size_t q = 0; q < b.size; q++) if(d[q] != pat_byte(b.pat, q)) { corrupt++; break; } }
+				size_t n2 = r.pick(std::vector<size_t>{1, 16, 60, 64, 65, 250, 256, 257, 4000, 6000});
+				uint64_t fc = ts();
+				void *q = pool->realloc(b.p, n2);
+				uint64_t ar = ts();
+				if(!q) { nulls++; continue; }
+				if(q != b.p) logs[t].push_back({(uintptr_t)b.p, b.size, b.alloc_ret, fc});
+				size_t s2 = pool->get_size(q);
+				uint64_t pat = r.next();
+				auto *d2 = (uint8_t *)q; for(size_t w = 0; w < s2; w++) d2[w] = pat_byte(pat, w);
+				mine[k] = {q, s2, pat, q != b.p ? ar : b.alloc_ret};
+				reallocs++;
 			} else if(z < 88) { // hand a block to another thread
 				size_t k = r.below(mine.size()); Mine b = mine[k];
 				Slot &s = xfer[r.below(NSLOTS)];
@@ -135,7 +153,7 @@ static void torture(const char *mname, long long idx, int nthreads, unsigned nop
 	// offline history check
 	std::vector<AllocEv> all;
 	for(auto &l : logs) all.insert(all.end(), l.begin(), l.end());
-	count("tsan_allocations", all.size()); count("tsan_cross_thread_frees", cross.load());
+	count("tsan_allocations", all.size()); count("tsan_cross_thread_frees", cross.load()); count("tsan_reallocs", reallocs.load());
 	std::sort(all.begin(), all.end(), [](const AllocEv &a, const AllocEv &b) { return a.addr < b.addr || (a.addr == b.addr && a.alloc_ret < b.alloc_ret); });
 	uint64_t overlaps = 0;
 	for(size_t i = 0; i < all.size(); i++)
@@ -168,10 +186,11 @@ int main(int argc, char **argv) {
 		int nt = 2 + idx % 7;
 		g_jitter_den = (i % 2) ? 4 : 16;
 		unsigned nops = opt.thorough() ? 6000 : 1500;
-		switch(i % 3) {
+		switch(i % 4) {
 		case 0: torture<frg::ticket_spinlock>("ticket_spinlock", idx, nt, nops); break;
 		case 1: torture<frg::simple_spinlock>("simple_spinlock", idx, nt, nops); break;
-		default: torture<std::mutex>("std_mutex", idx, nt, nops); break;
+		case 2: torture<std::mutex>("std_mutex", idx, nt, nops); break;
+		default: torture<frg::ticket_spinlock, false>("ticket_spinlock", idx, nt, nops); break;
 		}
 	}
 	sample("tsan:ticket_spinlock: 5 threads x 1500 ops (45% allocate of {8,16,64,200,256,300,5000}, 30% free/deallocate, 13% hand a block over, 12% free a block another thread allocated) on a fresh pool, jitter at the three slab hook points");
